@@ -26,7 +26,13 @@ LEVEL.update({
 LEVEL.update({
  "C15": ("The bookkeeping invariants that exactness of prune rests on are decided statically: each shared operation is one lock around one Cache call (field private, no unsafe), on every enumerated path of upsert the tuple count, Partition.size and current_size move together, both sizes drop by the same counted amount in the expired walk, queue updates are paired with last_read/next_expiry stores and partition insert/remove, next_expiry is only ever a minimum over all records of the name, eviction happens only in `while current_size > desired_size` after the expired walk, and the report fields have the documented origins. LRU order and counts along histories are declined; loop termination is conditional on these invariants.", "3/C15"),
 })
+LEVEL.update({
+ "C14": ("The line state machine is checked as a typestate over feasible paths (the reading-name state is never left without flushing the name or failing), together with the transition table for '#', '%', non-ASCII and parse failures, the v4/A and v6/AAAA family tables of all converters, the serialiser's per-family output and the tools' call pairs. hosts(5) semantics over arbitrary text is declined.", "3/C14"),
+ "C16": ("Well-formedness is decided by ownership and dominance: only the constructors can build DomainName/Label, no field is mutated elsewhere, the 63/255 limits and the root-label conditions dominate every construction, the recorded length is accumulated only from label count and label lengths, bytes pass through to_ascii_lowercase, comparison/hash impls are derived, is_subdomain_of is slice::ends_with. The dotted-text round trip is declined.", "3/C16"),
+})
 TECH = {
+ "C14": "custom MIR rules: typestate via CUT-REACH on feasible paths (scrutinee-consistent reachability), arm tables, ORIGIN of insert arguments",
+ "C16": "custom MIR rules: who-constructs / who-writes, guard dominance with named-constant operands, accumulator-definition shapes, derived-impl inventory",
  "C15": "custom MIR rules: bounded path enumeration with symbolic counter effects (EFFECT), paired-update must-pass-through, min-fold shape via ORIGIN, who-calls",
  "C02": "custom MIR rules: closure-aware ORIGIN (map/collect/to_rr), guard sets per result variant, arm table, recursion-argument shape",
  "C12": "custom MIR rules: moved-before-dropped typestate, paired-update (must-pass-through) rule, ORIGIN of insert arguments, ordering by reachability",
